@@ -23,7 +23,7 @@ Definition value_eqb (a b : value) : bool :=
 (* KInt off: the parsed value is (decimal text) + off, the written text is decimal (value - off);
    off = -1 for the VCF position column (VCFBuffer._get_field_by_number / process_field_for_write). *)
 Inductive kind := KStr | KInt (off : Z).
-Inductive layout := LDelim | LFastq | LFasta2.
+Inductive layout := LDelim | LSam | LFastq | LFasta2.
 Record fmt := {
   f_kinds : list kind;        (* one per dataclass field *)
   f_layout : layout;
@@ -61,16 +61,27 @@ Record rawrec := { r_fields : list (list Z); r_raw : list Z }.
 Definition dr : rawrec := {| r_fields := []; r_raw := [] |}.
 Definition field (f : nat) (r : rawrec) : list Z := nth f (r_fields r) [].
 
-(* how a buffer class lays out one record from the text of its fields (join_fields / dump_csv) *)
+(* how the EAGER writer lays out one record from the text of its fields (from_data / dump_csv) *)
 Definition render (L : layout) (cells : list (list Z)) : list Z :=
   match L with
-  | LDelim => intercalate [9] cells ++ [10]
+  | LDelim | LSam => intercalate [9] cells ++ [10]
   | LFastq => match cells with
               | [n; s; q] => [64] ++ n ++ [10] ++ s ++ [10; 43; 10] ++ q ++ [10]
               | _ => [] end
   | LFasta2 => match cells with
                | [n; s] => [62] ++ n ++ [10] ++ s ++ [10]
                | _ => [] end
+  end.
+
+(* how the buffer class joins the text columns of a MODIFIED lazy table (buffer_class.join_fields).
+   SAMBuffer.join_fields (36989fd): the optional tags are one possibly empty field and no separator is written
+   before an empty one; every other buffer class joins like its eager writer. *)
+Definition join_fields (L : layout) (cells : list (list Z)) : list Z :=
+  match L with
+  | LSam => match rev cells with
+            | [] :: r => intercalate [9] (rev r) ++ [10]
+            | _ => render L cells end
+  | _ => render L cells
   end.
 
 (* ---------------------------------------------------------------- generic column/row helpers *)
@@ -275,9 +286,17 @@ Definition l_write (F : fmt) (hdr : list Z) (l : lazy) : option (list Z) :=
   else Some (hdr ++
     match l_set l with
     | [] => concat (map r_raw (l_buf l))
-    | _ => concat (map (render (f_layout F))
+    | _ => concat (map (join_fields (f_layout F))
                        (rows_of_cols [] (length (l_buf l)) (map (text_col F l) (all_fields F))))
     end)
+  end.
+(* the modified write agrees with the eager layout on every row it writes (false only for a SAM row whose
+   tags field is empty: the eager writer puts a tab in front of the empty field, join_fields does not) *)
+Definition join_ok (F : fmt) (l : lazy) : bool :=
+  match l_set l with
+  | [] => true
+  | _ => forallb (fun cells => zlist_eqb (join_fields (f_layout F) cells) (render (f_layout F) cells))
+                 (rows_of_cols [] (length (l_buf l)) (map (text_col F l) (all_fields F)))
   end.
 
 (* np.concatenate over lazy operands, buffer class with `concatenate`.
@@ -412,7 +431,7 @@ Fixpoint m_run (cc : fmt -> list lazy -> option lazy) (F : fmt) (hdr : list Z) (
   end.
 
 (* the variant that models /repo as it is now: one-line switch once notes/C05.fix-1.diff is applied *)
-Definition l_concat_cur := l_concat_pinned.
+Definition l_concat_cur := l_concat.
 
 (* ---------------------------------------------------------------- guards used by the theorems *)
 Definition subset (a b : list nat) : bool := forallb (fun x => existsb (Nat.eqb x) b) a.
@@ -439,7 +458,7 @@ Definition m_guard (F : fmt) (regs : list table) (o : op) : bool :=
       | None => true end
   | OWrite r =>
       match nth_error regs r with
-      | Some (TLazy l) => match l_write F [] l with Some _ => true | None => false end
+      | Some (TLazy l) => match l_write F [] l with Some _ => join_ok F l | None => false end
       | _ => true end
   | OGet r f =>
       match nth_error regs r with
